@@ -8,11 +8,16 @@ import Lemmas.NumCheck
 import Lemmas.NumBytecode
 import Generated.Opcodes
 /-! C08 — compiled programs do what the source says.
-`Spec.run` is the definition of "what the source text says".  What is proved here (growing):
-* rejection: a program the static rules reject is refused, never run (`rejected_not_run`);
+`Spec.run` is the definition of "what the source text says".  What is proved here:
+* rejection: a program the static rules reject is refused, never run (`rejected_not_run`, `compile_rejects`);
 * the compilation cache is transparent for every cache size and eviction policy (`cache_transparent`);
-* the compiler+VM model `compile_correct` is the planned next stage (DESIGN §5 C08) — until then the lift from
-  `Spec` to the bytecode VM rests on the end-to-end differential of `checks/c08.py`. -/
+* **`compile_correct`**: for the compiler model `Compile.compile` and the stack-machine model `VM.run` (tied to the Go
+  compiler and VM by the bytecode-equality and VM differentials of `checks/c08.py`), for EVERY program the compiler
+  accepts, every variable map and every store, running the bytecode — `SetVarsFromJSON`, `ResolveResources`,
+  `ResolveBalances`, `Execute`, metadata merge — gives exactly the postings, metadata and printed values (or the
+  error class) `Spec.run` gives, and no panic.  Side conditions (`Script.wellFormed`): at least one statement, lists
+  shorter than 2^64, no portion literal with a zero denominator — all three hold of everything the front end
+  produces, none is a restriction of the language. -/
 namespace C08
 open Num Cache
 
@@ -99,33 +104,26 @@ example : check ⟨[], [.print (.add (.num 1) (.str "x"))]⟩ = false := by deci
 
 /-! #### compiler correctness
 
-The FULL statement (not yet proved in this generality; tied by the differentials of `checks/c08.py`):
+Three statements, from the oldest to the strongest (all kept: none is weakened by the later ones).
 
-```
-theorem compile_correct (P : Script) (prog : Program) (hc : compile P = .ok prog) (req : Request) (store : Store) :
-    (VM.run prog req store).map VM.Result.obs = Outcome.ofExcept ((Spec.run P req store).map Result.obs)
--- obs = (postings, txMeta, acctMeta): for every program the language accepts, every variable map and every store,
--- running the compiled bytecode on the VM gives exactly what the source says (same postings, same metadata,
--- or the same class of error) and never panics.
-```
+`compile_correct_partial` — AFTER the VM's resolution stage succeeded (`hv`/`hr`/`hb`), `VM.run` is `Spec`'s
+statement semantics `evalStmts` under the environment read back from the resolved table, then `Spec.run`'s metadata
+merge, with the metadata and printed values equal AS VALUES (`BVal.ofVal`).  Fragment `Script.frag`: every statement
+of the language except a portion LITERAL as the value of `print` / `set_tx_meta` / `set_account_meta` (the compiler
+de-duplicates portion constants by `big.Rat` comparison, so the VM may hold `1/2` where the text says `2/4`: equal
+values is then too strong; equal TEXT is what `compile_correct` states), with the side conditions of
+`Script.wellFormed`.
 
-What IS proved, for the FRAGMENT `Script.frag`:
-statements `send [A n | A *] (source = S, destination = @x | $x)` with `S` built from accounts (with or without
-`allowing overdraft up to …` / `allowing unbounded overdraft`, `@world` included), `max … from S` and in-order
-lists `{ S … }`; `save … from`, `set_tx_meta`, `set_account_meta`, `print`, `fail`; no portion literal inside the
-expressions (a de-duplicated portion constant is equal only up to `ratEq`), lists shorter than 2^64.
+`resolution_stage_eq` — the resolution stage of the VM IS `Spec.prepare` + `checkBalanceVars` + `initBal`, for the
+whole language.  `compile_correct_frag` — end to end on `Script.frag`, no hypothesis on the resolution stage.
 
-`compile_correct_partial`: after the VM's resolution stage (`SetVarsFromJSON`, `ResolveResources`,
-`ResolveBalances`) succeeded, `VM.run` of the compiled program is `Spec`'s statement semantics `evalStmts`
-(the very function `Spec.run` uses) under the environment read back from the resolved resource table, followed
-by `Spec.run`'s metadata merge.  Not covered by the theorem: source and destination allotments, ordered
-destinations with `max`/`remaining`/`kept`; and the equivalence of the two RESOLUTION stages (`Spec.prepare` /
-`initBal` vs `SetVarsFromJSON`/`ResolveResources`/`ResolveBalances`) — both rest on the differentials. -/
+`compile_correct` — the FULL statement: end to end, the whole language. -/
 
-/-- **compiled code does what the source says (fragment)** — frame lemmas `expr_ok`, `source_ok`,
-`takeFromSource_ok`, `destAcct_ok`, `stmt_ok` of `Lemmas/Num{Frame,Stmt}.lean`: running `code(src)` from stack `S`
-and balances `B` ends with stack `funding :: S` and balances `B'`, nothing below `S` touched, and equals
-`Spec.evalSource`; likewise for destinations and whole statements. -/
+/-- **compiled code does what the source says (from the resolved state on, values equal)** — frame lemmas `expr_ok`,
+`source_ok`, `takeFromSource_ok` (`Lemmas/NumFrame.lean`, `NumStmt.lean`), `dest_ok` / `kd_ok` / `caps_ok` / `allot_ok`
+(`NumDest.lean`), `allotment_ok` (`NumAllot.lean`), `allotSources_ok`, `stmt_okQ` (`NumStmt.lean`): running `code(x)`
+from stack `S` and balances `B` ends with stack `v :: S`, nothing below `S` touched, and equals `Spec`'s evaluator;
+likewise for whole statements. -/
 theorem compile_correct_partial (P : Script) (prog : Program) (hc : compile P = .ok prog) (hfr : P.frag)
     (req : Request) (store : Store) (vars : List (String × BVal)) (R : VM.Resolved) (vals : List BVal) (B : VM.Balances)
     (hv : VM.setVarsFromJSON prog req.vars = .ok vars) (hr : VM.resolveResources prog vars store = .ok R)
@@ -223,7 +221,28 @@ has no panic alternative).  No hypothesis on the resolution stage is left. -/
 theorem compile_correct_frag (P : Script) (prog : Program) (hc : compile P = .ok prog) (hfr : P.frag)
     (req : Request) (store : Store) :
     (VM.run prog req store).map VM.Result.obs = VM.Outcome.ofExcept ((Num.run P req store).map Num.Result.obs) :=
-  run_eq_of_exec hc (frag_tablePos hc hfr) (fun _ _ _ cx hp _ hE m F hrel => execute_correct hc hfr cx hp hE m F hrel) req store
+  run_eq hc (Script.frag2_of_frag hfr) req store
+
+/-- the side conditions of `compile_correct`: at least one statement (the grammar requires it; `Execute` reads
+`Instructions[0]`); every in-order source list and every allotment shorter than 2^64 (the count is an operand that
+travels through `big.Int.Uint64()` — a text that long cannot exist); no portion literal with a zero denominator
+(`big.Rat` has none, the parser produces none).  Everything the front end accepts satisfies them. -/
+def _root_.Num.Script.wellFormed (P : Script) : Prop := P.frag2
+
+/-- **compiled programs do what the source says** — the whole language.  For every program the compiler accepts
+(`hc`; `compile_rejects`: exactly the programs `check` accepts, size limits apart), every variable map and every
+store: running the compiled bytecode on the VM — `SetVarsFromJSON`, `ResolveResources`, `ResolveBalances`, `Execute`,
+`GetTxMetaJSON` / `GetAccountsMetaJSON`, the merge with the request's metadata — yields exactly the observations
+`Spec.run` yields (postings in order, transaction metadata, account metadata, printed values, the last three as the
+strings that are stored / written), or an error of exactly the same class; and, the right-hand side having no panic
+alternative, none of the VM's panic sites is reachable. -/
+theorem compile_correct (P : Script) (prog : Program) (hc : compile P = .ok prog) (hwf : P.wellFormed)
+    (req : Request) (store : Store) :
+    (VM.run prog req store).map VM.Result.obs = VM.Outcome.ofExcept ((Num.run P req store).map Num.Result.obs) :=
+  run_eq hc hwf req store
+
+/-- the fragment of the earlier statements satisfies the side conditions -/
+theorem wellFormed_of_frag (P : Script) (h : P.frag) : P.wellFormed := Script.frag2_of_frag h
 
 /-! non-vacuity: a program of the fragment (ordered capped source with a `@world` fallback, metadata) compiles,
 and both sides of `compile_correct_frag` are the two postings below (kernel evaluation of the compiler, the VM and
@@ -297,6 +316,21 @@ example : (match compile exSrcAllot with
 
 example : ((Num.run exSrcAllot ⟨[], []⟩ exStore).map Num.Result.obs).toOption =
     some ⟨[⟨"b", "alice", 3, "USD"⟩, ⟨"c", "alice", 2, "USD"⟩, ⟨"world", "alice", 4, "USD"⟩], [], [], []⟩ := by decide +kernel
+
+/-! non-vacuity of `compile_correct` beyond `Script.frag`: portion literals as metadata / printed values, one of
+them (`2/4`) de-duplicated against the other (`1/2`); what is stored is the same text on both sides -/
+def exPortion : Script :=
+  ⟨[], [.setTxMeta "p" (.portion ⟨1, 2⟩), .print (.portion ⟨2, 4⟩), .setAccountMeta (.acct "a") "q" (.portion ⟨2, 4⟩)]⟩
+
+example : exPortion.wellFormed := ⟨by simp [exPortion], by intro s hs; simp [exPortion] at hs; rcases hs with rfl | rfl | rfl <;> decide⟩
+
+example : (match compile exPortion with
+    | .ok prog => (match VM.run prog ⟨[], []⟩ exStore with | .ok r => some (r.obs, prog.resources.filter (fun r => r.bty == .portion)) | _ => none)
+    | .error _ => none) =
+    some (⟨[], [("p", "1/2")], [("a", "q", "1/2")], ["1/2"]⟩, [.const (.portion ⟨1, 2⟩)]) := by decide +kernel
+
+example : ((Num.run exPortion ⟨[], []⟩ exStore).map Num.Result.obs).toOption =
+    some ⟨[], [("p", "1/2")], [("a", "q", "1/2")], ["1/2"]⟩ := by decide +kernel
 
 /-- invariant of the cache: every entry is the compilation of some text with that digest -/
 def CacheInv {Text Key Prog : Type} (H : Text → Key) (compile : Text → Option Prog) (c : Cache.Store Key Prog) : Prop :=
